@@ -1,6 +1,7 @@
 """Contracts for the encoder of stone_serializers.py (C05; C04, C07, C13 build on them)."""
 from pyvc.contract import contract, Ret, Raise, Obj, AnyVal, Lit, OneOf, implies
 import spec.runtime as S
+import spec.gen as G
 import stone.backends.python_rsrc.stone_validators as bv
 import stone.backends.python_rsrc.stone_base as bb
 import stone.backends.python_rsrc.stone_serializers as ss
@@ -144,3 +145,21 @@ class encode_union:
         if S.enc_union_ok(validator, value):
             return Ret(S.enc_union_val(validator, value))
         return Raise(bv.ValidationError)
+
+Base_encode_sub.gen = staticmethod(G.encode_case())
+
+Prim_encode_sub.gen = staticmethod(G.encode_case())
+
+encode_nullable.gen = staticmethod(G.encode_case((bv.Nullable,)))
+
+encode_primitive.gen = staticmethod(G.encode_case((bv.Primitive,)))
+
+encode_list.gen = staticmethod(G.encode_case((bv.List,)))
+
+encode_map.gen = staticmethod(G.encode_case((bv.Map,)))
+
+encode_struct.gen = staticmethod(G.encode_case((bv.Struct,)))
+
+encode_struct_tree.gen = staticmethod(G.encode_case((bv.StructTree,)))
+
+encode_union.gen = staticmethod(G.encode_case((bv.Union,)))
